@@ -26,3 +26,41 @@ package schedulerplugin
 //@   requires p.IPAMContext != nil && p.PodLister != nil && p.Client != nil
 //@   ensures [C04:live-pod-counts-as-running] podName != "" && namespace != "" && alive(namespace, podName, podUid) ==> result0
 //@   modifies fresh v1.Pod.*
+
+// ---- the plugin's view of its IPAM and environment ----
+//@ pure crd(p *FloatingIPPlugin) *floatingip.crdIpam = as(floatingip.crdIpam, p.ipam)
+//@ pure ipamOK(p *FloatingIPPlugin) bool = p.ipam != nil && crd(p) != nil && inv(crd(p)) && synced(crd(p)) && held[ptr(crd(p).cacheLock)] == 0
+//@ pure envOK(p *FloatingIPPlugin) bool = p.IPAMContext != nil && p.PodLister != nil && p.Client != nil && p.podLockPool != nil && p.dpLockPool != nil
+//@ pure noLocksHeld() bool = forall l mint :: held[l] == 0
+//@ func (*FloatingIPPlugin).lockPod inline
+//@ func (*FloatingIPPlugin).LockDpPool inline
+//@ func getCaller noeffect
+
+// provider calls: success means the provider acknowledged (non-nil reply with Success)
+//@ func [C10,C18] (*FloatingIPPlugin).cloudProviderUnAssignIP
+//@   requires req != nil
+//@   ensures [C10:unassign-ok-means-unassigned] result == nil && p.cloudProvider != nil ==> ProvNode == old(ProvNode)[req.IPAddress := ""]
+//@   ensures [C10:unassign-failed-means-unchanged] result != nil || p.cloudProvider == nil ==> ProvNode == old(ProvNode)
+//@   modifies ProvNode, fresh rpc.UnAssignIPReply.*
+//@ func [C10,C18] (*FloatingIPPlugin).cloudProviderAssignIP
+//@   requires req != nil
+//@   ensures [C10:assign-ok-means-assigned] result == nil && p.cloudProvider != nil ==> ProvNode == old(ProvNode)[req.IPAddress := req.NodeName]
+//@   ensures [C10:assign-failed-means-unchanged] result != nil || p.cloudProvider == nil ==> ProvNode == old(ProvNode)
+//@   modifies ProvNode, fresh rpc.AssignIPReply.*
+
+// reserveIP(key, prefixKey): re-keys the entries keyed `key`; never creates or deletes an object
+//@ func [C04,C03,C02] (*FloatingIPPlugin).reserveIP
+//@   requires ipamOK(p)
+//@   ensures ipamOK(p)
+//@   ensures [C04:reserve-only-own-key] StoreDom == old(StoreDom) && forall k string :: !(old(StoreDom[k]) && old(StoreKey[k]) == key) ==> storeSameAt(k)
+//@   modifies floatingip.FloatingIP.Key, floatingip.FloatingIP.Policy, floatingip.FloatingIP.UpdatedAt, floatingip.FloatingIP.NodeName, floatingip.FloatingIP.PodUid, fresh floatingip.FloatingIP.IP, fresh floatingip.FloatingIP.pool, fresh floatingip.FloatingIP.Labels, StoreKey, StorePolicy, StoreNode, StoreUid, faults
+
+// ---- API release of one IP (C04, C10, C11) ----
+//@ func [C04,C10,C11] (*FloatingIPPlugin).Release
+//@   let ipS = ipstr(r.IP)
+//@   requires r != nil && r.KeyObj != nil && r.KeyObj.KeyInDB != "" && ipamOK(p) && envOK(p) && noLocksHeld()
+//@   ensures [C04:api-release-keeps-live-pod] old(StoreDom[ipS]) && r.KeyObj.PodName != "" && r.KeyObj.Namespace != "" && alive(r.KeyObj.Namespace, r.KeyObj.PodName, old(StoreUid[ipS])) ==> storeUnchanged() && ProvNode == old(ProvNode)
+//@   ensures [C04,C11:api-release-only-listed-key] forall k string :: !(old(StoreDom[k]) && old(StoreKey[k]) == r.KeyObj.KeyInDB) ==> storeSameAt(k)
+//@   ensures [C10:unassign-before-free] result == nil && p.cloudProvider != nil && old(StoreDom[ipS]) && old(StoreKey[ipS]) == r.KeyObj.KeyInDB && old(StoreNode[ipS]) != "" && !StoreDom[ipS] ==> ProvNode[ipS] == ""
+//@   ensures noLocksHeld()
+//@   modifies all
